@@ -857,7 +857,7 @@ func (fr *Frame) applyContract(c *Contract, callee *ssa.Function, args []Val, re
 			fr.havocArg(envPre.eval(e), st)
 		case strings.HasPrefix(m, "calls "):
 			k := strings.TrimSpace(m[6:])
-			st.calls[k] = fc.B.Fresh("N_"+k, "Int")
+			st.ghosts["#calls:"+k] = fc.B.Fresh("N_"+k, "Int")
 		case m == "":
 		default:
 			fc.unsupported("modifies clause %q", m)
@@ -867,7 +867,7 @@ func (fr *Frame) applyContract(c *Contract, callee *ssa.Function, args []Val, re
 	if c.Flags["pure"] && len(c.Modifies) == 0 {
 		// pure contracted function: its results are (uninterpreted) functions of the arguments, so two calls
 		// with equal arguments yield equal results
-		res = fr.pureResult(resT, name, args)
+		res = fr.pureResult(resT, name, args, &pre)
 	} else {
 		res = fr.freshResult(resT, "r_"+shortFn(name))
 	}
